@@ -7,6 +7,8 @@ from . import core, realcode
 
 UID_BASE = 100000
 TITLES = ['S0', 'Data', 'T_2']
+# titles of the current workbook are drawn from these; digit-only titles must be addressed as titles, never as sheet numbers
+TITLE_SETS = [['S0', 'Data', 'T_2'], ['S0', 'Data', 'T_2'], ['1', '0', '2024'], ['2', 'Data', '0'], ['A1', 'SUM', '7']]
 LETTERS = 'ABCDEFGHIJKLMNOPQRSTUVWXYZ'
 
 
@@ -17,6 +19,7 @@ def code(s, c, r):
 class Book:
     def __init__(self, rng, failing=True):
         self.rng = rng
+        TITLES[:] = rng.choice(TITLE_SETS)     # in place: the module-level list is what formulas and addressing read (one workbook at a time)
         self.ns = rng.randint(1, 3)
         self.w = [rng.randint(2, 4) for _ in range(self.ns)]
         self.h = [rng.randint(2, 5) for _ in range(self.ns)]
